@@ -60,6 +60,7 @@ type World struct {
 	warm       bool   // a warm-up request is running: no environment step, no faults, router: no match, sender: success
 	warmSave   [3]int
 	warmO2     string
+	warmSenderFail bool
 	envSteps   int
 	itoaSeen   []*Term
 	autoO2     string
